@@ -57,7 +57,9 @@ def save_bytes(mid):
     return buf.getvalue()
 
 
-def load_bytes(b):
+def load_bytes(b, charset=None):
+    if charset is not None:
+        return mido.MidiFile(file=io.BytesIO(bytes(b)), charset=charset)
     return mido.MidiFile(file=io.BytesIO(bytes(b)))
 
 
@@ -88,6 +90,13 @@ def check_roundtrip(fd, via='file'):
     except Exception as exc:  # noqa: BLE001
         return [fail('build-raises', f'{exc!r}', exc=exc_sig(exc))]
     out = []
+    cs = fd.get('charset')
+    if cs is not None:
+        # a file with another text encoding than the default: set after construction or handed to the constructor
+        if len(fd['tracks']) % 2:
+            mid.charset = cs
+        else:
+            mid = mido.MidiFile(type=mid.type, ticks_per_beat=mid.ticks_per_beat, charset=cs, tracks=mid.tracks)
     if via == 'filename':
         # the same through real files: save(filename) / MidiFile(filename); the path first holds the remains of a failed
         # save of a longer file, which must not show through
@@ -111,7 +120,7 @@ def check_roundtrip(fd, via='file'):
                 mid.save(path)
                 with open(path, 'rb') as f:
                     b = f.read()
-                back = mido.MidiFile(path)
+                back = mido.MidiFile(path) if cs is None else mido.MidiFile(path, charset=cs)
                 if back.filename != path:
                     out.append(fail('filename-attr', f'MidiFile(filename).filename is {back.filename!r}'))
             except Exception as exc:  # noqa: BLE001
@@ -130,8 +139,8 @@ def check_roundtrip(fd, via='file'):
         except Exception as exc:  # noqa: BLE001
             return [fail('save-raises', f'{exc!r}', exc=exc_sig(exc))]
         try:
-            back = load_bytes(b)
-            other = load_bytes(b)
+            back = load_bytes(b, cs)
+            other = load_bytes(b, cs)
             if other.tracks and other.tracks[0]:
                 other.tracks[0][0].time = 987654          # a second load must not share messages with the first
                 other.tracks[0].append(mido.Message('note_on'))
@@ -386,6 +395,15 @@ def main(ctx):
     ctx.pmap('hyp_shard', [('roundtrip', k, n // w) for k in range(w)] +
              [('refusal', k, n // (2 * w)) for k in range(w)] +
              [('mutants', k, 4 * n // w) for k in range(w)])
+    # files in another text encoding than the default (text that is spelled differently in latin1)
+    for cs, text in (('utf-8', 'caf\u00e9 \u20ac \u65e5\u672c'), ('cp437', 'caf\u00e9 \u0398'), ('mac_roman', '\u00e9t\u00e9'),
+                     ('cp1252', '\u20ac5'), ('utf-16', 'ab\u00e9'), ('shift_jis', '\u65e5\u672c'), ('latin1', '\u00e9')):
+        for ntr in (1, 2):
+            tr = [{'type': 'track_name', 'name': text, 'time': 0}, {'type': 'lyrics', 'text': text + text, 'time': 3},
+                  {'type': 'note_on', 'channel': 0, 'note': 60, 'velocity': 1, 'time': 5}, {'type': 'marker', 'text': '', 'time': 0}]
+            for via in ('file', 'filename'):
+                ctx.check({'kind': 'roundtrip', 'via': via, 'file': {'type': 1, 'tpb': 480, 'tracks': [tr] * ntr, 'charset': cs}},
+                          classes=('charset',), sample=False)
     # volume: many events, many tracks (track count needs both header bytes), long payloads
     big = [{'type': 'note_on', 'channel': i % 16, 'note': i % 128, 'velocity': 1 + i % 127, 'time': i % 3} for i in range(4000)]
     big += [{'type': 'lyrics', 'text': 'x' * 70000, 'time': 1}, {'type': 'sysex', 'data': [i % 128 for i in range(20000)], 'time': 2},
